@@ -315,7 +315,9 @@ fn units(run: &Run) -> Vec<Unit> {
             add(Kind::Pipe, 2, 0, k, true, Some(3));
             add(Kind::Pipe, 2, 0, k, false, Some(3));
             add(Kind::Buffered, 0, 2, k, true, Some(3));
-            add(Kind::Composite, 2, 1, k, true, Some(if k == 0 { 2 } else { 1 }));
+            if k <= 1 {
+                add(Kind::Composite, 2, 1, k, true, Some(if k == 0 { 2 } else { 1 }));
+            }
         }
     }
     u
